@@ -137,8 +137,6 @@ def _unroll_while(E, n, st):
 
 def run_for(E, n, st):
     spec = E.loop_spec(st, n)
-    if n.orelse and spec is not None:
-        raise Unsupported('for-else on a loop cut by an invariant')
     sink = []
     outs = []
     for s1, itv in E.ev(n.iter, st, sink):
@@ -154,8 +152,6 @@ def run_for(E, n, st):
         if items is not None:
             outs.extend(_unroll_for(E, n, s1, items, sink))
             continue
-        if n.orelse:
-            raise Unsupported('for-else over a symbolic iterable')
         if spec is None:
             raise Unsupported('for loop at line %d over a symbolic iterable needs an invariant' % n.lineno)
         outs.extend(_cut_loop(E, n, s1, spec, kind='for', iterable=itv))
@@ -311,7 +307,11 @@ def _cut_loop(E, n, st, spec, kind, iterable=None):
         if b is not None:
             if kind == 'for':
                 b.frame.env.pop(idx_name, None)
-            outs.append(('fall', b))
+            if kind == 'for' and n.orelse:
+                # for ... else: the else suite runs on the exit through the exhausted iterable (not on `break`, below)
+                outs.extend(E.run_block(n.orelse, b))
+            else:
+                outs.append(('fall', b))
         if a is None:
             continue
         body_sts = [a]
